@@ -56,6 +56,12 @@ def run(ctx):
         a_ex = op_local(C.blocks[cbb]["term"]["args"][0])
         a_ad = op_local(C.blocks[adds[0]]["term"]["args"][3])
         ctx.ob("R14.1", "%s|tested-path-is-recorded-path" % C.key, a_ex in item and a_ad in item, where=ctx.where(C, adds[0]), detail="both the existence test and the recorded edge derive from the loop's argument")
+        # ... and they are the *same* path: both are the argument itself (identity conversions only), resolved against the same directory
+        ident = taint(C, seeds={C.blocks[n]["term"]["dest"]["l"] for n in nexts}, mode="direct", through=__import__("re").compile(r"std::path::Path::new|core::option::Option::ok_or_else|core::option::Option::ok_or"))
+        same = (a_ex in ident or any(x in ident for x in ba.ref_chain(a_ex))) and (a_ad in ident or any(x in ident for x in ba.ref_chain(a_ad)))
+        ctx.ob("R14.1", "%s|existence-tested-on-the-recorded-spelling" % C.key, same, where=ctx.where(C, cbb),
+               detail="the existence test and the recorded edge use the argument as given (same base directory)" if same else
+               "the existence test resolves the argument differently from the recorded edge (joined with another path): an existing file can be declared, or a missing one refused")
         # commit is outside the loop: not reachable back to `next`
         common.not_reach(ctx, "R14.1", "%s|commit-after-loop" % C.key, C, commits, nexts, "commit happens after the loop", "commit inside the loop: a later error leaves earlier edges committed", incl=False)
         exits = [i for i in ba.calls(r"std::process::exit") if const_int(C.blocks[i]["term"]["args"][0]) == 204]
@@ -64,6 +70,8 @@ def run(ctx):
         ctx.ob("R14.1", "%s|empty-name=>exit-204" % C.key, ok, where=C.span, detail="an empty name exits EXIT_INVALID_TARGET before anything else")
 
     dirt.created_edge_rule(ctx, "R14.2")
+    ctx.rule("R14.5", "the per-run memo of the dirtiness routine is consulted only after the 'changed later than parent' test, so a re-stamped //ALWAYS stays dirty for every dependent in the run")
+    dirt.memo_placement(ctx, "R14.5")
 
     A = prog.one(r"@bin::always::run")
     aba = BA.of(A)
